@@ -226,6 +226,48 @@ type e2eMsg struct {
 	id, typ, data string
 }
 
+// e2ePublisher builds the k-th message the way one kind of publisher would: "fresh" (a new Message per event), "template" (a
+// clone of one template message with the variable part appended - the template has spare room in its chunk list) or "reuse" (the
+// same Message object published every time, a tick; only with automatic IDs, where the replayer numbers its own copy).
+type e2ePublisher struct {
+	style string
+	auto  bool
+	tpl   *sse.Message
+	tick  *sse.Message
+}
+
+func newE2EPublisher(style string, auto bool) *e2ePublisher {
+	p := &e2ePublisher{style: style, auto: auto}
+	p.tpl = &sse.Message{}
+	p.tpl.AppendData("template line 1", "template line 2", "template line 3")
+	p.tick = &sse.Message{}
+	p.tick.AppendData("tick")
+	return p
+}
+
+func (p *e2ePublisher) message(k int) (m *sse.Message, want e2eMsg) {
+	switch p.style {
+	case "template":
+		m = p.tpl.Clone()
+		want.id = strconv.Itoa(k)
+		if p.auto {
+			want.id = strconv.Itoa(k - 1)
+		} else {
+			m.ID = sse.ID(want.id)
+		}
+		if k%3 == 0 {
+			want.typ = "kind" + strconv.Itoa(k%5)
+			m.Type = sse.Type(want.typ)
+		}
+		m.AppendData("value: " + strconv.Itoa(k))
+		want.data = "template line 1\ntemplate line 2\ntemplate line 3\nvalue: " + strconv.Itoa(k)
+		return
+	case "reuse":
+		return p.tick, e2eMsg{id: strconv.Itoa(k - 1), data: "tick"}
+	}
+	return e2eMessage(k, p.auto)
+}
+
 func e2eMessage(k int, auto bool) (m *sse.Message, want e2eMsg) {
 	m = &sse.Message{}
 	want.id = strconv.Itoa(k)
@@ -281,7 +323,12 @@ func runE2E(seed int64, total int) (evs []jev, incomplete string) {
 		// a server with a session callback that lets everybody in on the default topic: resuming works the same
 		srv.OnSession = func(http.ResponseWriter, *http.Request) ([]string, bool) { return nil, true }
 	}
-	log.add(jev{"e": "reset", "seed": seed, "total": total, "replayer": kind, "auto": auto, "onsession": onSession})
+	style := []string{"fresh", "fresh", "template", "reuse"}[rng.Intn(4)]
+	if style == "reuse" && !auto {
+		style = "template" // with its own ID a message is one event: publishing it twice would be the publisher's duplicate
+	}
+	pubr := newE2EPublisher(style, auto)
+	log.add(jev{"e": "reset", "seed": seed, "total": total, "replayer": kind, "auto": auto, "onsession": onSession, "publisher": style})
 	want := map[string]e2eMsg{}
 	idToK := func(s string) int {
 		if s == "" {
@@ -348,12 +395,14 @@ func runE2E(seed int64, total int) (evs []jev, incomplete string) {
 	go func() { connDone <- conn.Connect() }()
 
 	publish := func(k int) bool {
-		m, w := e2eMessage(k, auto)
+		m, w := pubr.message(k)
 		wmu.Lock()
 		want[w.id] = w
 		wmu.Unlock()
 		log.add(jev{"e": "pub", "i": k})
-		if err := srv.Publish(m); err != nil {
+		err := srv.Publish(m)
+		log.add(jev{"e": "pubret", "i": k, "ok": err == nil, "err": fmt.Sprint(err)})
+		if err != nil {
 			incomplete = fmt.Sprintf("Publish(%d) failed: %v", k, err)
 			return false
 		}
